@@ -432,6 +432,25 @@ package pokerface
 //@   allocs combination.PowerState, combination.Card, combination.Element, elems(*combination.Card), elems(*combination.Element), elems([]string), elems(string), elems(*combination.PowerState)
 //@   ensures err == nil
 
+// The shipped ranking tables reach the evaluator unmodified (C03): the option constructors hand out the very
+// package-level tables of package combination and write to nothing that existed before (frame obligation:
+// a store through an alias of a table is a write to pre-existing memory).
+//@ func NewStardardGameOptions() (opts)
+//@   props C03
+//@   modifies nothing
+//@   allocs GameOptions, elems(string), elems(*PlayerSetting)
+//@   ensures [C03] opts != nil && fresh(opts) && sameslice(opts.CombinationPowers, combination.CombinationPowerStandard)
+//@   ensures opts.HoleCardsCount == 2 && opts.RequiredHoleCardsCount == 0 && opts.BurnCount == 1 && opts.Limit == "no"
+//@   ensures opts.Ante == 0 && opts.Blind.Dealer == 0 && opts.Blind.SB == 5 && opts.Blind.BB == 10
+//@   ensures len(opts.Deck) == 0 && len(opts.Players) == 0
+
+//@ func NewShortDeckGameOptions() (opts)
+//@   props C03
+//@   modifies nothing
+//@   allocs GameOptions, elems(string), elems(*PlayerSetting)
+//@   ensures [C03] opts != nil && fresh(opts) && sameslice(opts.CombinationPowers, combination.CombinationPowerShortDeck)
+//@   ensures opts.HoleCardsCount == 2 && opts.RequiredHoleCardsCount == 0 && opts.BurnCount == 1 && opts.Limit == "no"
+
 // ---------------------------------------------------------------------------
 // player actions (player.go). p is ANY player object of the game: an action by a seat
 // that is not the one to act is refused because that seat is offered nothing (TURN).
